@@ -6,11 +6,76 @@
 package main
 
 import (
+	"fmt"
+	"os"
 	"path/filepath"
+
+	"github.com/massnetorg/mass-core/wire"
+	"massnet.org/mass/config"
+	"massnet.org/mass/poc/engine/spacekeeper/capacity"
 
 	"verif/harness/internal/vh"
 	"verif/harness/internal/wl"
 )
+
+// keeperPath: the space keeper signs block headers through the wallet (SpaceKeeper.SignHash -> wallet.SignMessage).
+// A real v1 keeper is put on top of the history's real wallet; it issues plot keys through the wallet, and every
+// workspace must sign a fresh hash with a signature that verifies under that workspace's public key.
+func keeperPath(run *vh.Run, e *wl.Env) {
+	if len(e.M.Order) == 0 || e.M.Priv == nil {
+		return
+	}
+	if e.W.M.IsLocked() {
+		if err := e.W.M.Unlock(e.M.Priv); err != nil {
+			return
+		}
+		e.M.Locked = false
+	}
+	dir := filepath.Join(e.Dir, "plots")
+	os.MkdirAll(dir, 0o755)
+	cfg := config.DefaultConfig()
+	cfg.Miner.ProofDir = []string{dir}
+	cfg.Miner.PrivatePassword = "" // no auto-unlock / auto-configure in the constructor
+	ski, err := capacity.NewSpaceKeeperV1(cfg, e.W.M)
+	if err != nil {
+		run.Drop("cannot construct keeper over the wallet: " + err.Error())
+		return
+	}
+	sk := ski.(*capacity.SpaceKeeper)
+	infos, err := sk.ConfigureByBitLength(map[int]int{24: 2}, false, false)
+	if err != nil {
+		run.Drop("cannot configure keeper over the wallet")
+		return
+	}
+	for _, in := range infos {
+		var h [32]byte
+		copy(h[:], e.Rng.Bytes(32))
+		sig, err := sk.SignHash(in.SpaceID, h)
+		if err != nil || sig == nil {
+			e.Report([]string{"C05"}, "keeper-signhash-failed-while-unlocked", nil, map[string]interface{}{"sid": in.SpaceID, "err": fmt.Sprint(err)})
+			continue
+		}
+		d := wire.HashH(h[:])
+		if !sig.Verify(d[:], in.PublicKey) {
+			e.Report([]string{"C05"}, "keeper-signature-does-not-verify", nil, map[string]interface{}{"sid": in.SpaceID})
+		}
+		// the key the keeper was given must be one the wallet issued with that ordinal
+		if ord, ok := e.W.M.GetPublicKeyOrdinal(in.PublicKey); !ok || int64(ord) != in.Ordinal {
+			e.Report([]string{"C05", "C06"}, "keeper-workspace-key-not-issued-by-wallet-with-that-ordinal", nil, map[string]interface{}{"sid": in.SpaceID, "ordinal": in.Ordinal, "wallet_ordinal": ord, "found": ok})
+		}
+		run.Count("keeper_signatures_verified", 1)
+	}
+	// locked wallet: the keeper path must fail too
+	e.W.M.Lock()
+	e.M.Locked = true
+	for _, in := range infos {
+		var h [32]byte
+		if sig, err := sk.SignHash(in.SpaceID, h); err == nil && sig != nil {
+			e.Report([]string{"C05", "C03"}, "keeper-signhash-succeeded-while-locked", nil, map[string]interface{}{"sid": in.SpaceID})
+		}
+		run.Count("keeper_sign_refused_while_locked", 1)
+	}
+}
 
 func main() {
 	run := vh.NewRun("C05", "exploration")
@@ -28,6 +93,7 @@ func main() {
 			out = append(out, ins...)
 			return append(out, ops[pos:]...)
 		},
+		After: func(e *wl.Env) { keeperPath(run, e) },
 		Nontrivial: func(e *wl.Env) bool {
 			nt := e.Nontrivial()
 			return e.Signed > 0 && nt["issued-locked"] && nt["issued-unlocked"]
